@@ -256,6 +256,22 @@ def mc_and_replay(rep, binp, module, consts, what, kind='dec', workers=4, r=None
     return r
 
 
+def rv_guard(rep, binp, seed, tier):
+    """guard pages: sources and destinations flush against a PROT_NONE page, cases run in child processes; a child killed
+    by a signal is recorded as a "G" event (C06.fault); completed decode/encode cases are ordinary histories"""
+    outdir = '%s/%s/guard' % (RUN, rep.prop)
+    clean_dir(outdir)
+    st = run_profile(binp, 'guard', outdir, seed, tier, shards=1)
+    for prefix, spec in (('guard-dec_', 'TraceDec'), ('guard-enc_', 'TraceEnc')):
+        files = sorted(os.path.join(outdir, f) for f in os.listdir(outdir) if f.startswith(prefix) and os.path.getsize(os.path.join(outdir, f)) > 0)
+        if files:
+            results = validate_traces(spec, files)
+            rep.add_trace_results('guard pages (%s*), %s faults' % (prefix, st.get('faults')), spec, results, st)
+            handle_trace_violations(rep, results)
+    rep.cov['guard_page_cases'] = st.get('histories')
+    rep.cov['guard_page_faults'] = st.get('faults')
+
+
 def C(enc, mode, sink, repl, maxpend, caps, alphabet):
     return dict(EncName=enc, ModeName=mode, SinkName=sink, Repl=repl, MaxPend=maxpend, Caps=caps, Alphabet=alphabet)
 
@@ -460,6 +476,8 @@ def plan_C05(rep, seed, tier):
     binp = build_harness('default')
     rv(rep, binp, 'dec-cutsets', seed, tier, extra=['--sinks', 'str,string'] + (['--thin', '2'] if tier == 'quick' else []), tag='dec-cutsets-str')
     rv(rep, binp, 'dec-random', seed, tier, extra=['--sinks', 'str,string,utf8,utf16'], tag='dec-random-allsinks')
+    rv(rep, binp, 'dec-whole', seed, tier, extra=['--sinks', 'str,string,utf8', '--thin', '6' if tier == 'quick' else '1'], tag='dec-whole-str')
+    rv(rep, binp, 'dec-deep', seed, tier, extra=['--sinks', 'str,string,utf8', '--thin', '4' if tier == 'quick' else '1'], tag='dec-deep-str')
     r = mc_run('MC_StrZeroing', dict(MaxLen=8 if tier == 'thorough' else 7, K=3, GarbageBytes=[65, 128, 195, 255]), invariants=('ResultValid', 'PrefixKept'), view=None, workers=8)
     rep.add_mc(r['name'], r, 'Layer I clean-up of decode_to_str* / convert_*_to_str_partial (zero MAX_STRIDE_SIZE, then strip continuation bytes): every valid old buffer, every written prefix, every garbage pattern in the stride window => valid UTF-8')
     if r.get('violated') or not r.get('completed'):
@@ -478,6 +496,7 @@ def plan_C06(rep, seed, tier):
     rv(rep, binp, 'enc-random', seed, tier, extra=['--twins'], tag='enc-random')
     rv(rep, binp, 'dec-bom', seed, tier, extra=['--thin', '6' if tier == 'quick' else '2', '--cap', 'min'], tag='dec-bom-min')
     rv(rep, binp, 'dec-deep', seed, tier, shards=32 if tier == 'thorough' else 16)
+    rv_guard(rep, binp, seed, tier)
     rep.cov['rule'] = ('contract clauses (read <= src, written <= dst, InputEmpty => all consumed, no panic at documented minimum sizes, String/Vec keep pointer, capacity, '
                        'old contents, canary bands intact) on every call of random decoder/encoder histories and of the BOM matrix at minimum capacity')
 
